@@ -2,6 +2,7 @@ package main
 
 import (
 	"crypto/sha1"
+	"encoding/binary"
 	"fmt"
 	"math/big"
 	"sort"
@@ -72,12 +73,21 @@ type Term struct {
 
 func (t *Term) IsConst() bool { return t.Op == "const" }
 
+type termKey struct {
+	Op, Name, Big string
+	Sort      Sort
+	U         uint64
+	A0, A1, A2 int32
+	N         int8
+}
+
 type TermTable struct {
-	m    map[string]*Term
+	m    map[termKey]*Term
 	next int
 	vars map[*Term][]int
 	hash map[*Term][16]byte
 	nn   map[*Term]bool
+	snap interface{} // globals after package initialisation, built with this table's terms
 }
 
 // NonNeg: a cheap syntactic proof that an Int term is >= 0 (used to drop sign case splits).
@@ -107,7 +117,7 @@ func (tt *TermTable) NonNeg(t *Term) bool {
 }
 
 func NewTermTable() *TermTable {
-	return &TermTable{m: map[string]*Term{}, vars: map[*Term][]int{}, hash: map[*Term][16]byte{}, nn: map[*Term]bool{}}
+	return &TermTable{m: map[termKey]*Term{}, vars: map[*Term][]int{}, hash: map[*Term][16]byte{}, nn: map[*Term]bool{}}
 }
 
 // Hash is a structural hash of a term, independent of the table it lives in (query cache key).
@@ -116,7 +126,13 @@ func (tt *TermTable) Hash(t *Term) [16]byte {
 		return h
 	}
 	hs := sha1.New()
-	fmt.Fprintf(hs, "%s|%s|%d|%d|", t.Op, t.Name, t.Sort, t.U)
+	hs.Write([]byte(t.Op))
+	hs.Write([]byte{0})
+	hs.Write([]byte(t.Name))
+	var buf [10]byte
+	buf[0] = byte(t.Sort)
+	binary.LittleEndian.PutUint64(buf[1:], t.U)
+	hs.Write(buf[:])
 	if t.Big != nil {
 		hs.Write([]byte(t.Big.String()))
 	}
@@ -178,18 +194,23 @@ func mergeSorted(a, b []int) []int {
 }
 
 func (tt *TermTable) intern(t *Term) *Term {
-	var sb strings.Builder
-	sb.WriteString(t.Op)
-	sb.WriteByte('|')
-	sb.WriteString(t.Name)
-	fmt.Fprintf(&sb, "|%d|%d|", t.Sort, t.U)
+	k := termKey{Op: t.Op, Name: t.Name, Sort: t.Sort, U: t.U, N: int8(len(t.Args))}
 	if t.Big != nil {
-		sb.WriteString(t.Big.String())
+		k.Big = t.Big.String()
 	}
-	for _, a := range t.Args {
-		fmt.Fprintf(&sb, ",%d", a.id)
+	switch len(t.Args) {
+	case 3:
+		k.A2 = int32(t.Args[2].id)
+		fallthrough
+	case 2:
+		k.A1 = int32(t.Args[1].id)
+		fallthrough
+	case 1:
+		k.A0 = int32(t.Args[0].id)
+	case 0:
+	default:
+		panic("term with more than 3 arguments")
 	}
-	k := sb.String()
 	if e, ok := tt.m[k]; ok {
 		return e
 	}
@@ -207,12 +228,20 @@ func mask(bits int) uint64 {
 }
 
 func (tt *TermTable) BV(bits int, v uint64) *Term {
-	return tt.intern(&Term{Op: "const", Sort: bvSort(bits), U: v & mask(bits)})
+	k := termKey{Op: "const", Sort: bvSort(bits), U: v & mask(bits)}
+	if e, ok := tt.m[k]; ok {
+		return e
+	}
+	return tt.intern(&Term{Op: "const", Sort: k.Sort, U: k.U})
 }
 func (tt *TermTable) Bool(b bool) *Term {
 	u := uint64(0)
 	if b {
 		u = 1
+	}
+	k := termKey{Op: "const", Sort: SBool, U: u}
+	if e, ok := tt.m[k]; ok {
+		return e
 	}
 	return tt.intern(&Term{Op: "const", Sort: SBool, U: u})
 }
